@@ -21,12 +21,11 @@ def phases_for(tier):
         ]
     return [
         (core, [L(q + gq + an, bi, core, (0, 1), 'wide depth 1: all ops, core x core atoms'),
-                L(q + gq + an, bi, small, (0, 1), 'wide depth 2: all ops; binary ops with the small atoms on both sides')], False),
+                L(q + gq + an, bi, tiny, (0, 1), 'wide depth 2: all unary ops; binary ops with the tiny atoms on both sides')], False),
         (small, [L(q + gq + an, bi, small, (0, 1), 'deep depth 1: all ops, small x small atoms'),
                  L(cq + gq + an, bi, tiny, (0, 1), 'deep depth 2: core quantifiers, groups, anchors; binary ops with tiny atoms'),
-                 L(cq[:6] + gq[:1] + an[:1] + an[3:], bi[:2] + bi[3:4] + bi[5:6], tiny[:5], (0, 1),
-                   'deep depth 3 (nested in the workers): 6 quantifiers, capture, 2 anchors; '
-                   'concat/either/followed_by/preceded_by with 5 atoms')], True),
+                 L(cq[:4] + gq[:1] + an[:1], bi[:2], tiny[:3], (0, 1),
+                   'deep depth 3 (nested in the workers): 4 quantifiers, capture, one anchor; concat/either with 3 atoms')], True),
     ]
 
 
